@@ -294,6 +294,7 @@ class Driver:
             "fault_counts": dict(sorted(self.agg_faults.items())),
             "probe_counts": dict(sorted(self.agg_probes.items())),
             "distinct_states": len(self.states),
+            "distinct_states_by_kind": dict(collections.Counter(s.split("|", 1)[0] for s in self.states)),
             "distinct_states_measure": getattr(c, "STATE_MEASURE", ""),
             "real_components": getattr(c, "REAL", []),
             "stub_components": getattr(c, "STUB", []),
